@@ -288,7 +288,9 @@ func (e *Engine) loadAxioms() {
 		func() {
 			defer func() {
 				if r := recover(); r != nil {
-					fmt.Fprintf(os.Stderr, "axiom %s skipped: %v\n", a.Name, r)
+					if e.verbose {
+						fmt.Fprintf(os.Stderr, "axiom %s skipped (its package is not loaded in this run): %v\n", a.Name, r)
+					}
 				}
 			}()
 			t := e.evalBool(env, a.C)
